@@ -468,6 +468,10 @@ def rand_state(rng):
         x = qtn.TN_from_edges_rand(edges, int(rng.integers(1, 4)), phys_dim=2, seed=seed, dtype=dtype)
     if rng.random() < 0.3:
         x.multiply_(float(gen.choice(rng, [0.5, 3.0])), spread_over="all")
+    if rng.random() < 0.2:
+        # a stored exponent (what equalize_norms / strip_exponent leave behind) is
+        # part of the state: |psi> = 10**exponent * (contraction of the tensors)
+        x.exponent = float(gen.choice(rng, [0.5, -0.5, 1.0]))
     return kind, x
 
 
@@ -580,6 +584,8 @@ def wl_lattice(rng, rec, tier):
         L = int(rng.integers(2, 8))
         x = qtn.MPS_rand_state(L, int(rng.integers(1, 4)), dtype=gen.choice(rng, ["float64", "complex128"]),
                                seed=int(rng.integers(1 << 30)), normalize=bool(rng.random() < 0.5))
+        if rng.random() < 0.2:
+            x.exponent = float(gen.choice(rng, [0.5, -0.5, 1.0]))
         terms = {}
         for i in range(L - 1):
             if rng.random() < 0.6:
